@@ -734,6 +734,8 @@ pub struct StaticReport {
     pub rows_checked: u64,
     pub ints_decoded: u64,
     pub lookups: u64,
+    /// maximize calls made for S4 (every row in table order, in reverse order, and after neighbouring misses)
+    pub lookup_queries: u64,
     pub lookups_found: u64,
     /// tables where *no* row was reachable through the lookup (not attributable to ordering;
     /// reported, not gating)
@@ -882,35 +884,55 @@ pub fn static_checks(comp: &BTreeMap<String, Val>, rf: &Reference) -> StaticRepo
     // S4: every row is found by the real lookup (the order the binary search actually uses).
     // Gating only when reachability differs between rows of one table (position dependent =
     // ordering); a table with no reachable row at all is reported but not attributed to C18.
+    // (round 5) "Found" must not depend on what was looked up before: the rows are asked for in
+    // table order, in reverse order, and each right after a lookup that misses next to it (same
+    // first key, a second key the table does not list for it) — a lookup that remembers its last
+    // miss or narrows its bounds from the previous call finds every row when asked cold and loses
+    // some of them in use (seeded `m22`).
+    type Triple = (subtags::Language, Option<subtags::Script>, Option<subtags::Region>);
+    struct Probe {
+        idx: usize,
+        key: Vec<u128>,
+        ask: Triple,
+        expect: (String, Option<String>, Option<String>),
+    }
+    let lang = |v: u128| decode_lang(v).ok().and_then(|s| subtags::Language::from_bytes(s.as_bytes()).ok());
+    let script = |v: u128| decode_script(v).ok().and_then(|s| subtags::Script::from_bytes(s.as_bytes()).ok());
+    let region = |v: u128| decode_region(v).ok().and_then(|s| subtags::Region::from_bytes(s.as_bytes()).ok());
+    let und = subtags::Language::default();
+    let triple_of = |t: &str, k: &[u128]| -> Option<Triple> {
+        Some(match t {
+            "LANG_ONLY" => (lang(*k.first()?)?, None, None),
+            "LANG_REGION" => (lang(*k.first()?)?, None, Some(region(*k.get(1)?)?)),
+            "LANG_SCRIPT" => (lang(*k.first()?)?, Some(script(*k.get(1)?)?), None),
+            "SCRIPT_REGION" => (und, Some(script(*k.first()?)?), Some(region(*k.get(1)?)?)),
+            "SCRIPT_ONLY" => (und, Some(script(*k.first()?)?), None),
+            _ => (und, None, Some(region(*k.first()?)?)),
+        })
+    };
+    let answer = |q: Triple| -> Option<(String, Option<String>, Option<String>)> {
+        match std::panic::catch_unwind(|| ls::maximize(q.0, q.1, q.2)) {
+            Ok(Some((gl, gs, gr))) => Some((
+                gl.as_str().to_string(),
+                gs.map(|x| x.as_str().to_string()),
+                gr.map(|x| x.as_str().to_string()),
+            )),
+            _ => None,
+        }
+    };
     let mut lookups = 0u64;
+    let mut rows_tried = 0u64;
     let mut lookups_found = 0u64;
     let mut unreachable_tables = vec![];
     for t in LIKELY_TABLES {
         let c = as_array(comp.get(t)).unwrap_or(&[]);
-        let mut missed: Vec<(usize, Vec<u128>)> = vec![];
-        let mut tried = 0u64;
+        let mut probes: Vec<Probe> = vec![];
         for (i, row) in c.iter().enumerate() {
             let k = row_key(row);
-            let probe: Option<(subtags::Language, Option<subtags::Script>, Option<subtags::Region>)> = (|| {
-                let lang = |v: u128| decode_lang(v).ok().and_then(|s| subtags::Language::from_bytes(s.as_bytes()).ok());
-                let script = |v: u128| decode_script(v).ok().and_then(|s| subtags::Script::from_bytes(s.as_bytes()).ok());
-                let region = |v: u128| decode_region(v).ok().and_then(|s| subtags::Region::from_bytes(s.as_bytes()).ok());
-                let und = subtags::Language::default();
-                Some(match t {
-                    "LANG_ONLY" => {
-                        if k.first() == Some(&own_pack("und")) {
-                            return None; // by design not reachable: the bare und key
-                        }
-                        (lang(*k.first()?)?, None, None)
-                    }
-                    "LANG_REGION" => (lang(*k.first()?)?, None, Some(region(*k.get(1)?)?)),
-                    "LANG_SCRIPT" => (lang(*k.first()?)?, Some(script(*k.get(1)?)?), None),
-                    "SCRIPT_REGION" => (und, Some(script(*k.first()?)?), Some(region(*k.get(1)?)?)),
-                    "SCRIPT_ONLY" => (und, Some(script(*k.first()?)?), None),
-                    _ => (und, None, Some(region(*k.first()?)?)),
-                })
-            })();
-            let Some((l, s, r)) = probe else { continue };
+            if t == "LANG_ONLY" && k.first() == Some(&own_pack("und")) {
+                continue; // by design not reachable: the bare und key
+            }
+            let Some(ask) = triple_of(t, &k) else { continue };
             // rows whose value lacks a language (the lookup would unwrap a None) or does not decode
             // are skipped here: S1/S3 report those
             // the stored value, decoded by the harness's own unpacker
@@ -939,40 +961,91 @@ pub fn static_checks(comp: &BTreeMap<String, Val>, rf: &Reference) -> StaticRepo
                 Some((l, s, r))
             })();
             let Some(expect) = expect else { continue };
-            tried += 1;
+            probes.push(Probe { idx: i, key: k, ask, expect });
+        }
+        let tried = probes.len() as u64;
+        // found = the lookup answers with exactly the value stored in this row (an answer taken
+        // from a less specific table after a failed search does not count)
+        // pass 1: table order, cold
+        let mut missed: BTreeMap<usize, &'static str> = BTreeMap::new();
+        for p in &probes {
             lookups += 1;
-            let res = std::panic::catch_unwind(|| ls::maximize(l, s, r));
-            let got = match res {
-                Ok(Some((gl, gs, gr))) => Some((
-                    gl.as_str().to_string(),
-                    gs.map(|x| x.as_str().to_string()),
-                    gr.map(|x| x.as_str().to_string()),
-                )),
-                _ => None,
-            };
-            // found = the lookup answers with exactly the value stored in this row (an answer
-            // taken from a less specific table after a failed search does not count)
-            if got.as_ref() == Some(&expect) {
-                lookups_found += 1;
-            } else {
-                missed.push((i, k));
+            if answer(p.ask).as_ref() != Some(&p.expect) {
+                missed.entry(p.idx).or_insert("asked in table order");
             }
         }
+        // pass 2: reverse order
+        for p in probes.iter().rev() {
+            lookups += 1;
+            if answer(p.ask).as_ref() != Some(&p.expect) {
+                missed.entry(p.idx).or_insert("asked in reverse table order");
+            }
+        }
+        // pass 3: each row right after a neighbouring miss
+        let keyset: BTreeSet<Vec<u128>> = probes.iter().map(|p| p.key.clone()).collect();
+        let two_keys = probes.first().map(|p| p.key.len() == 2).unwrap_or(false);
+        let seconds: Vec<u128> = {
+            let mut v: Vec<u128> = probes.iter().filter_map(|p| p.key.get(1).copied()).collect();
+            v.sort();
+            v.dedup();
+            v
+        };
+        let firsts: Vec<u128> = {
+            let mut v: Vec<u128> = probes.iter().filter_map(|p| p.key.first().copied()).collect();
+            v.sort();
+            v.dedup();
+            v
+        };
+        for p in &probes {
+            let mut misses: Vec<Vec<u128>> = vec![];
+            if two_keys {
+                // same first key, a second key the table does not list for it: the largest and
+                // the smallest second key of the table that qualify
+                for cand in seconds.iter().rev().take(3).chain(seconds.iter().take(3)) {
+                    let k = vec![p.key[0], *cand];
+                    if !keyset.contains(&k) {
+                        misses.push(k);
+                    }
+                }
+            } else {
+                // a first key of this table's kind that is not in the table is hard to make up
+                // generically; a neighbour row's key asked for first serves as the "previous call"
+                if let Ok(pos) = firsts.binary_search(&p.key[0]) {
+                    for q in [pos.wrapping_sub(1), pos + 1] {
+                        if let Some(f) = firsts.get(q) {
+                            misses.push(vec![*f]);
+                        }
+                    }
+                }
+            }
+            for m in misses {
+                let Some(q) = triple_of(t, &m) else { continue };
+                let _ = answer(q);
+                lookups += 1;
+                if answer(p.ask).as_ref() != Some(&p.expect) {
+                    missed.entry(p.idx).or_insert("asked right after a lookup next to it");
+                }
+            }
+        }
+        lookups_found += tried - missed.len() as u64;
+        rows_tried += tried;
         if !missed.is_empty() {
             if missed.len() as u64 == tried {
                 unreachable_tables.push(t.to_string());
             } else {
-                for (i, k) in missed.iter().take(cap) {
+                for (i, how) in missed.iter().take(cap) {
+                    let k = &probes.iter().find(|p| p.idx == *i).unwrap().key;
                     out.push(viol(
                         "S4",
                         t,
                         "row-not-found-by-lookup",
                         &key_label(t, k),
                         format!(
-                            "{}[{}] (key {}) is not found by likelysubtags::maximize (it does not answer with the value stored in that row) although {} of {} rows of the table are: the table is not ordered the way the lookup searches it",
+                            "{}[{}] (key {}) is not found by likelysubtags::maximize when {} (it does not answer with the value stored in that row) although {} of {} rows of the table are found however they are asked for: the table is not ordered the way the lookup searches it",
                             t,
                             i,
                             key_label(t, k),
+                            how,
                             tried - missed.len() as u64,
                             tried
                         ),
@@ -986,7 +1059,8 @@ pub fn static_checks(comp: &BTreeMap<String, Val>, rf: &Reference) -> StaticRepo
         violations: out,
         rows_checked,
         ints_decoded,
-        lookups,
+        lookups: rows_tried,
+        lookup_queries: lookups,
         lookups_found,
         unreachable_tables,
     }
